@@ -20,12 +20,12 @@ for f in "$out"/demo/*.rs; do cp "$f" dds/tests/; done
 demos=$(cd "$out/demo" && ls *.rs | sed 's/\.rs$//')
 echo "## base: $(git -C /repo log --format=%h -1)" >> "$log"
 echo "## demo WITHOUT the change (must pass)" >> "$log"
-for d in $demos; do (cd dds && timeout 2400 cargo test --offline -p dust_dds --test $d 2>&1 | grep -E "^test |test result|error" | head -20) >> "$log"; done
+for d in $demos; do (cd dds && timeout 2400 cargo test --offline -p dust_dds ${DEMO_FEATURES:+--features $DEMO_FEATURES} --test $d 2>&1 | grep -E "^test |test result|error" | head -20) >> "$log"; done
 git apply "$out/patch.diff" || { echo "PATCH DOES NOT APPLY" >> "$log"; exit 1; }
 echo "## with the change: unit tests" >> "$log"
 (cd dds && timeout 2400 cargo test --offline --lib 2>&1 | grep -E "test result|error\[" | head -5) >> "$log"
 for t in "$@"; do echo "## with the change: integration test file $t" >> "$log"; (cd dds && timeout 2400 cargo test --offline -p dust_dds --test $t -- --test-threads=1 2>&1 | grep -E "test result|FAILED|failed" | head -8) >> "$log"; done
 echo "## demo WITH the change (must fail)" >> "$log"
-for d in $demos; do (cd dds && timeout 2400 cargo test --offline -p dust_dds --test $d 2>&1 | grep -E "^test |test result|panicked|error" | head -20) >> "$log"; done
+for d in $demos; do (cd dds && timeout 2400 cargo test --offline -p dust_dds ${DEMO_FEATURES:+--features $DEMO_FEATURES} --test $d 2>&1 | grep -E "^test |test result|panicked|error" | head -20) >> "$log"; done
 cd /; git -C /repo worktree remove --force "$wt"
 cat "$log"
